@@ -115,7 +115,7 @@ func execRules(c *Ctx, full bool) {
 	checkPragmaRecognised(c, "R09q")
 	c.Rule("R09r", ruleTextStateConsumed, 1)
 	checkStateConsumed(c, "R09r")
-	c.Rule("R09p", ruleTextNotFoundOnly, 2)
+	c.Rule("R09p", ruleTextNotFoundOnly, 1)
 	checkNotFoundOnly(c, "R09p")
 	c.Rule("R09o", ruleTextLastCheckpoint, 1)
 	checkLastCheckpoint(c, "R09o")
@@ -562,6 +562,16 @@ func sumsLoopOver(info *types.Info, body ast.Node, obj types.Object, skip ast.No
 						if kk, ok := rs.Key.(*ast.Ident); ok {
 							if i, ok := ix.Index.(*ast.Ident); ok && info.ObjectOf(i) == info.ObjectOf(kk) {
 								hasStore = true
+							}
+						}
+					}
+					// or one element appended per iteration (x = append(x, v)), which keeps the i-th sum at index i
+					if len(as.Lhs) == 1 && len(as.Rhs) == 1 {
+						if call, ok := ast.Unparen(as.Rhs[0]).(*ast.CallExpr); ok && builtinName(info, call) == "append" && len(call.Args) == 2 && !call.Ellipsis.IsValid() {
+							if l, ok := as.Lhs[0].(*ast.Ident); ok {
+								if a0, ok := ast.Unparen(call.Args[0]).(*ast.Ident); ok && info.ObjectOf(a0) == info.ObjectOf(l) {
+									hasStore = true
+								}
 							}
 						}
 					}
